@@ -582,6 +582,18 @@ func (ts *TermStore) Eq(a, b *Term) *Term {
 			return ts.Not(a)
 		}
 	}
+	// ite(c, x, y) == y  ->  !c || x == y   (and symmetric forms)
+	for k := 0; k < 2; k++ {
+		if a.Op == OIte {
+			if a.Args[2] == b {
+				return ts.Or(ts.Not(a.Args[0]), ts.Eq(a.Args[1], b))
+			}
+			if a.Args[1] == b {
+				return ts.Or(a.Args[0], ts.Eq(a.Args[2], b))
+			}
+		}
+		a, b = b, a
+	}
 	if a.id > b.id {
 		a, b = b, a
 	}
@@ -690,6 +702,19 @@ func (ts *TermStore) Or(a, b *Term) *Term {
 	}
 	if ts.Not(a) == b {
 		return ts.tru
+	}
+	// a || (!a || x) -> true ; a || (a || x) -> a || x   (one level)
+	for k := 0; k < 2; k++ {
+		if b.Op == OBOr {
+			na := ts.Not(a)
+			if b.Args[0] == na || b.Args[1] == na {
+				return ts.tru
+			}
+			if b.Args[0] == a || b.Args[1] == a {
+				return b
+			}
+		}
+		a, b = b, a
 	}
 	if a.id > b.id {
 		a, b = b, a
